@@ -958,7 +958,21 @@ pub fn parse_query(iter: &mut Iter<'_>) -> Query {
             };
             let right = match iter.peek().cloned().unwrap() {
                 Token::Eof => Conversion::None,
-                Token::Degree(deg) => Conversion::Degree(deg),
+                Token::Degree(deg) => {
+                    // A temperature scale is a conversion target only on
+                    // its own: `degC / s` or `degC m` is an expression, and
+                    // the scales are not allowed inside one.
+                    let mut rest = iter.clone();
+                    rest.next();
+                    while let Some(Token::Comment(_)) = rest.peek() {
+                        rest.next();
+                    }
+                    if let Some(Token::Eof) = rest.peek() {
+                        Conversion::Degree(deg)
+                    } else {
+                        Conversion::Expr(parse_eq(iter))
+                    }
+                }
                 Token::Plus | Token::Minus => {
                     let mut old = iter.clone();
                     if let Some(off) = parse_offset(iter) {
